@@ -1,6 +1,4 @@
 package main
 
-import "verifharness/pkg/hx"
 
 func runWorkerIfRequested() bool { return false }
-func runJSON(o *hx.Opts, res *hx.Result, r *hx.Rand) {}
